@@ -148,13 +148,15 @@ fn check_expl_pct(v: Value) -> Result<f64, String> {
 
 fn check_pct_range(v: Value) -> Result<f64, String> {
     let val = check_pct(v)?;
-    if val < 0.into() || val > 1.into() {
+    // Allow for rounding errors in values computed from a color.
+    let fuzz = 1e-11;
+    if val < -fuzz || val > 1. + fuzz {
         Err(expected_to(
             Numeric::percentage(val),
             "be within 0% and 100%",
         ))
     } else {
-        Ok(val)
+        Ok(val.clamp(0., 1.))
     }
 }
 
